@@ -13,6 +13,7 @@ type packetManager struct {
 	requests    chan orderedPacket
 	responses   chan orderedPacket
 	fini        chan struct{}
+	done        chan struct{} // closed when the controller has exited
 	incoming    orderedPackets
 	outgoing    orderedPackets
 	sender      packetSender // connection object
@@ -31,6 +32,7 @@ func newPktMgr(sender packetSender) *packetManager {
 		requests:  make(chan orderedPacket, SftpServerWorkerCount),
 		responses: make(chan orderedPacket, SftpServerWorkerCount),
 		fini:      make(chan struct{}),
+		done:      make(chan struct{}),
 		incoming:  make([]orderedPacket, 0, SftpServerWorkerCount),
 		outgoing:  make([]orderedPacket, 0, SftpServerWorkerCount),
 		sender:    sender,
@@ -107,6 +109,12 @@ func (s *packetManager) close() {
 	close(s.fini)
 }
 
+// wait blocks until the controller has sent every response that was ready
+// at shutdown and has exited.
+func (s *packetManager) wait() {
+	<-s.done
+}
+
 // Passed a worker function, returns a channel for incoming packets.
 // Keep process packet responses in the order they are received while
 // maximizing throughput of file transfers.
@@ -149,6 +157,7 @@ func (s *packetManager) workerChan(runWorker func(chan orderedRequest),
 
 // process packets
 func (s *packetManager) controller() {
+	defer close(s.done)
 	for {
 		select {
 		case pkt := <-s.requests:
@@ -160,9 +169,29 @@ func (s *packetManager) controller() {
 			s.outgoing = append(s.outgoing, pkt)
 			s.outgoing.Sort()
 		case <-s.fini:
+			s.drain()
 			return
 		}
 		s.maybeSendPackets()
+	}
+}
+
+// drain registers and sends what is still buffered in the channels at shutdown.
+// close() has waited for every registered request to be answered, so nothing
+// more can arrive: what the channels hold now is all there is.
+func (s *packetManager) drain() {
+	for {
+		select {
+		case pkt := <-s.requests:
+			s.incoming = append(s.incoming, pkt)
+			s.incoming.Sort()
+		case pkt := <-s.responses:
+			s.outgoing = append(s.outgoing, pkt)
+			s.outgoing.Sort()
+		default:
+			s.maybeSendPackets()
+			return
+		}
 	}
 }
 
